@@ -222,6 +222,7 @@ class Ctx:
         with open(os.path.join(d, "go.sum"), "w") as fh:
             fh.write("\n".join(sorted(sums)) + "\n")
         self.harness_dir = d
+        self.generate_go(["rpc.frugal"])
         return d
 
     def frugal_bin(self):
